@@ -98,9 +98,15 @@ class ShapeEval:
         if isinstance(e, ast.Attribute):
             if e.attr in ('real', 'imag'):
                 return self.ev(e.value)
+            if e.attr == 'shape':
+                return 'SHAPE'
+            if e.attr in ('ndim', 'size', 'pi'):
+                return ()
             return UNK
         if isinstance(e, ast.Subscript):
             base = self.ev(e.value)
+            if base == 'SHAPE':
+                return 'SHAPE' if isinstance(e.slice, ast.Slice) else ()
             if base is UNK:
                 return UNK
             if isinstance(base, tuple) and base and base[0] == 'tuple':
@@ -138,6 +144,8 @@ class ShapeEval:
         if isinstance(e, ast.Call):
             f = e.func
             fname = f.attr if isinstance(f, ast.Attribute) else (f.id if isinstance(f, ast.Name) else None)
+            if isinstance(f, ast.Name) and fname in ('len', 'int', 'float', 'abs', 'min', 'max') and fname != 'abs':
+                return ()
             # method calls on arrays
             if isinstance(f, ast.Attribute) and fname in ('reshape', 'view'):
                 args = e.args[0].elts if len(e.args) == 1 and isinstance(e.args[0], (ast.Tuple, ast.List)) else e.args
@@ -177,6 +185,16 @@ class ShapeEval:
                 return UNK
             if fname in ('zeros', 'ones') and e.args:
                 return UNK
+            if fname in ('eigvalsh', 'eigvals') and e.args:
+                a = self.ev(e.args[0])
+                if isinstance(a, tuple) and len(a) >= 2 and a[0] not in ('tuple', 'list'):
+                    return a[:-1]
+                return UNK
+            if fname == 'eigh' and e.args:
+                a = self.ev(e.args[0])
+                if isinstance(a, tuple) and len(a) >= 2 and a[0] not in ('tuple', 'list'):
+                    return ('tuple', [a[:-1], a])
+                return UNK
             return UNK
         return UNK
 
@@ -187,7 +205,7 @@ class ShapeEval:
         if t == '1':
             return 1
         if t == '-1':
-            return sym()
+            return 'B' if getattr(self, 'minus1_is_batch', False) else sym()
         return 'e:' + t
 
     # ---- statements
@@ -329,6 +347,26 @@ def sh1(proj, rep, func_quals):
             rep.ok('SH1', q, f'{se.nops} elementwise operations typed; the batch axis is never aligned with a non-batch axis', m, fi.node, text=f'{q} batch axis')
     rep.count('SH1.elementwise_ops_typed', total)
     return len(func_quals), total
+
+
+def sh1b(proj, rep, func_quals):
+    """SH1 for functions that flatten their own batch with `x.reshape(-1, n, n)`: the -1 axis is the batch axis."""
+    rep.rule('SH1', RULE_SH1)
+    total = 0
+    nf = 0
+    for q in func_quals:
+        fi = proj.func(q)
+        m = fi.module
+        rep.touch(m)
+        se = ShapeEval(fi, rep, m)
+        se.minus1_is_batch = True
+        se.run(fi.node.body)
+        total += se.nops
+        nf += 1
+        if not se.reported:
+            rep.ok('SH1', q, f'{se.nops} elementwise operations typed; the batch axis is never aligned with a non-batch axis', m, fi.node, text=f'{q} batch axis')
+    rep.count('SH1.batched_boundary_ops_typed', total)
+    return nf, total
 
 
 # ------------------------------------------------------------------------------------------------ SH2
@@ -692,3 +730,50 @@ def sh3(proj, rep, modules, summaries=None):
     rep.count('SH3.functions', nfun)
     rep.count('SH3.reshape_sites', nsites)
     return nfun, nsites
+
+
+# ------------------------------------------------------------------------------------------------ SH4
+RULE_SH4 = ('SH4: a function whose array argument carries its data on the LAST axis and supports leading batch axes (it asserts `x.ndim>=1` and uses '
+            '`x.shape[-1]`) slices that argument with an Ellipsis / full tuple: `x[..., a:b]`. A bare `x[a:b]` slices the FIRST axis: identical for a single '
+            'vector, but for a batch it drops rows (operators) instead of columns.')
+
+
+def sh4(proj, rep, modules):
+    rep.rule('SH4', RULE_SH4)
+    n = 0
+    for mq in modules:
+        m = proj.mod(mq)
+        rep.touch(m)
+        for fi in [f for f in proj.funcs.values() if f.module is m and f.cls is None]:
+            cand = set()
+            for a in [s for s in fi.node.body if isinstance(s, ast.Assert)]:
+                t = ast.unparse(a.test).replace(' ', '')
+                for p in fi.all_params:
+                    if f'{p}.ndim>=1' in t and f'{p}.shape[-1]' in t:
+                        cand.add(p)
+            for p in cand:
+                for s in fi.node.body:
+                    # only before the array is flattened to 2-D by the function itself
+                    if isinstance(s, ast.Assign) and any(isinstance(t, ast.Name) and t.id == p for t in s.targets) and 'reshape' in ast.unparse(s.value):
+                        break
+                    for x in ast.walk(s):
+                        if isinstance(x, ast.Subscript) and isinstance(x.value, ast.Name) and x.value.id == p and isinstance(x.ctx, ast.Load):
+                            # inside `if p.ndim==1:` the first axis IS the last axis
+                            guarded = False
+                            cur = x
+                            while hasattr(cur, '_parent') and cur is not fi.node:
+                                cur = cur._parent
+                                if isinstance(cur, ast.If) and f'{p}.ndim==1' in ast.unparse(cur.test).replace(' ', ''):
+                                    guarded = True
+                            if guarded:
+                                continue
+                            sl = x.slice
+                            if isinstance(sl, ast.Slice):
+                                n += 1
+                                rep.violation('SH4', fi.qual, f'`{ast.unparse(x)}` slices the FIRST axis of `{p}`, whose data axis is the last one (`{p}.shape[-1]`, '
+                                              f'`{p}.ndim>=1`): for a batch this drops whole operators instead of the leading columns', m, s)
+                            elif isinstance(sl, ast.Tuple) and sl.elts and isinstance(sl.elts[0], ast.Constant) and sl.elts[0].value is Ellipsis:
+                                n += 1
+                                rep.ok('SH4', fi.qual, f'`{ast.unparse(x)}` slices the last axis', m, s)
+    rep.count('SH4.trailing_axis_slices', n)
+    return n
